@@ -849,6 +849,10 @@ class API:
                             selector_errors.append(
                                 f"Field `{field_str}` is not of type string."
                             )
+                        if field.repeated:
+                            selector_errors.append(
+                                f"Field `{field_str}` is a repeated field."
+                            )
                         if field.required:
                             selector_errors.append(
                                 f"Field `{field_str}` is a required field."
